@@ -29,6 +29,10 @@ type Allocator struct {
 
 type watchPartitionUpdate struct {
 	partition *partition
+	// Whether this node may bootstrap the partition's raft group (the dataset has just
+	// been created) or has to join the existing group (the node learned about the
+	// partition from a catalogue snapshot).
+	bootstrap bool
 }
 
 type unwatchPartitionUpdate struct {
@@ -58,13 +62,13 @@ func (this *Allocator) Stop() {
 	close(this.updatesC)
 }
 
-func (this *Allocator) watch(partition *partition) {
+func (this *Allocator) watch(partition *partition, bootstrap bool) {
 	this.partitionsMu.Lock()
 	defer this.partitionsMu.Unlock()
 
 	if _, exists := this.partitions[partition.id]; !exists {
 		this.partitions[partition.id] = partition
-		this.updatesC <- &watchPartitionUpdate{partition}
+		this.updatesC <- &watchPartitionUpdate{partition, bootstrap}
 	}
 }
 
@@ -130,6 +134,7 @@ func (this *Allocator) run() {
 			switch update.(type) {
 			case *watchPartitionUpdate:
 				_partition := update.(*watchPartitionUpdate).partition
+				bootstrap := update.(*watchPartitionUpdate).bootstrap
 				if this.isPartitionAssignedToNode(_partition) {
 					func(partition *partition) {
 						defer func() {
@@ -137,7 +142,11 @@ func (this *Allocator) run() {
 								log.WithFields(log.Fields{"partition_id": partition.id, "dataset_id": partition.dataset.id}).Errorf("Partition loadRaft panicked: %v", r)
 							}
 						}()
-						partition.loadRaft(partition.nodeIds())
+						if bootstrap {
+							partition.loadRaft(partition.nodeIds())
+						} else {
+							partition.loadRaft(nil)
+						}
 					}(_partition)
 				}
 			case *unwatchPartitionUpdate:
